@@ -550,7 +550,7 @@ func (vo vestingOracle) AfterTxn(w *ledger.World, bc *ledger.BlockCtx, o *ledger
 			}
 		}
 		if bigU(newP.Balance).Cmp(newP.leftSum()) < 0 {
-			violate(w, "C16", "backing", "C16/pool-balance-below-unvested/add", "pool balance %d < unvested %s", newP.Balance, newP.leftSum())
+			violate(w, "C16", "backing", "C16/pool-balance-below-unvested", "pool balance %d < unvested %s", newP.Balance, newP.leftSum())
 		}
 		if newP.Owner != t.ClientID {
 			violate(w, "C16", "add", "C16/pool-owner-is-not-creator", "owner %s creator %s", newP.Owner, t.ClientID)
@@ -603,8 +603,8 @@ func (vo vestingOracle) AfterTxn(w *ledger.World, bc *ledger.BlockCtx, o *ledger
 					sig = "C16/vested-ahead-of-schedule"
 				}
 				if sig != "" {
-					violate(w, "C16", "destination", sig+"/"+fn, "destination %s amount %d: vested %d -> %d at t=%d (start %d, expiry %d, schedule allows %s)+1",
-						e.ID[:min(8, len(e.ID))], e.Amount, e.Vested, n.Vested, now, oldP.Start, oldP.Expire, sched(e.Amount, oldP.Start, oldP.Expire, now))
+					violate(w, "C16", "destination", sig, "%s: destination %s amount %d: vested %d -> %d at t=%d (start %d, expiry %d, schedule allows %s)+1",
+						fn, e.ID[:min(8, len(e.ID))], e.Amount, e.Vested, n.Vested, now, oldP.Start, oldP.Expire, sched(e.Amount, oldP.Start, oldP.Expire, now))
 				}
 				if n.Vested >= e.Vested {
 					if vestedDelta[e.ID] == nil {
@@ -655,14 +655,16 @@ func (vo vestingOracle) AfterTxn(w *ledger.World, bc *ledger.BlockCtx, o *ledger
 			if m := maxCredit[id]; m != nil {
 				hi.Add(hi, m)
 			}
-			if c.Cmp(lo) < 0 || c.Cmp(hi) > 0 {
+			if maxCredit[id] != nil && c.Cmp(hi) > 0 {
+				violate(w, "C16", "destination", "C16/vested-ahead-of-schedule", "stop: destination %s received %s, schedule allows %s", id[:min(8, len(id))], c, hi)
+			} else if c.Cmp(lo) < 0 || c.Cmp(hi) > 0 {
 				violate(w, "C16", "transfer", "C16/destination-credit-differs-from-vested/"+fn, "destination %s balance changed by %s, vested counters grew by %s (stop allowance %s)", id[:min(8, len(id))], c, exact, new(big.Int).Sub(hi, lo))
 			}
 			destCredits.Add(destCredits, c)
 		}
 		// backing
 		if bigU(newP.Balance).Cmp(newP.leftSum()) < 0 {
-			violate(w, "C16", "backing", "C16/pool-balance-below-unvested/"+fn, "pool %s balance %d < unvested remainder %s", oldP.ID[len(oldP.ID)-8:], newP.Balance, newP.leftSum())
+			violate(w, "C16", "backing", "C16/pool-balance-below-unvested", "%s: pool %s balance %d < unvested remainder %s", fn, oldP.ID[len(oldP.ID)-8:], newP.Balance, newP.leftSum())
 		}
 		// bookkeeping vs wallet
 		pd := new(big.Int).Sub(bigU(newP.Balance), bigU(oldP.Balance))
@@ -693,7 +695,7 @@ func (vo vestingOracle) AfterTxn(w *ledger.World, bc *ledger.BlockCtx, o *ledger
 			case fn == "trigger":
 				for _, e := range newP.Dests {
 					if e.Vested != e.Amount {
-						violate(w, "C16", "expiry", "C16/amount-not-reached-at-expiry/trigger", "destination %s vested %d of %d after a trigger at t=%d >= expiry %d", e.ID[:min(8, len(e.ID))], e.Vested, e.Amount, now, oldP.Expire)
+						violate(w, "C16", "expiry", "C16/amount-not-reached-at-expiry", "trigger: destination %s vested %d of %d after a trigger at t=%d >= expiry %d", e.ID[:min(8, len(e.ID))], e.Vested, e.Amount, now, oldP.Expire)
 					}
 				}
 				w.Tr.Probe("oracle_expiry_trigger_checked")
@@ -701,7 +703,7 @@ func (vo vestingOracle) AfterTxn(w *ledger.World, bc *ledger.BlockCtx, o *ledger
 				for _, e := range newP.Dests {
 					if e.ID == t.ClientID {
 						if e.Vested != e.Amount {
-							violate(w, "C16", "expiry", "C16/amount-not-reached-at-expiry/unlock", "destination vested %d of %d after its unlock at t=%d >= expiry %d", e.Vested, e.Amount, now, oldP.Expire)
+							violate(w, "C16", "expiry", "C16/amount-not-reached-at-expiry", "unlock: destination vested %d of %d after its unlock at t=%d >= expiry %d", e.Vested, e.Amount, now, oldP.Expire)
 						}
 						break
 					}
@@ -745,7 +747,7 @@ func (vo vestingOracle) AfterTxn(w *ledger.World, bc *ledger.BlockCtx, o *ledger
 		}
 		m := maxCredit[id]
 		if m == nil || c.Cmp(m) > 0 || c.Sign() < 0 {
-			violate(w, "C16", "destination", "C16/delete-pays-destination-ahead-of-schedule", "account %s received %s on delete, schedule allows %v", id[:min(8, len(id))], c, m)
+			violate(w, "C16", "destination", "C16/vested-ahead-of-schedule", "delete: account %s received %s on delete, schedule allows %v", id[:min(8, len(id))], c, m)
 		}
 	}
 	for id, m := range minCredit {
@@ -753,7 +755,7 @@ func (vo vestingOracle) AfterTxn(w *ledger.World, bc *ledger.BlockCtx, o *ledger
 			continue
 		}
 		if credit(id).Cmp(m) < 0 {
-			violate(w, "C16", "expiry", "C16/amount-not-reached-at-expiry/delete", "destination %s received %s on delete after expiry, %s was still due", id[:min(8, len(id))], credit(id), m)
+			violate(w, "C16", "expiry", "C16/amount-not-reached-at-expiry", "delete: destination %s received %s on delete after expiry, %s was still due", id[:min(8, len(id))], credit(id), m)
 		}
 	}
 }
@@ -786,7 +788,7 @@ func (vo vestingOracle) checkRefusal(w *ledger.World, bc *ledger.BlockCtx, o *le
 	case fn == "trigger" && isOwner && now >= vp.Expire:
 		for _, e := range vp.Dests {
 			if e.Vested < e.Amount {
-				violate(w, "C16", "expiry", "C16/amount-not-reachable-at-expiry/trigger-refused/"+cause, "trigger at t=%d >= expiry %d refused while destination %s has %d of %d: %s", now, vp.Expire, e.ID[:min(8, len(e.ID))], e.Vested, e.Amount, errStr(o))
+				violate(w, "C16", "expiry", "C16/amount-not-reachable-at-expiry/"+cause, "trigger at t=%d >= expiry %d refused while destination %s has %d of %d: %s", now, vp.Expire, e.ID[:min(8, len(e.ID))], e.Vested, e.Amount, errStr(o))
 				break
 			}
 		}
@@ -794,7 +796,7 @@ func (vo vestingOracle) checkRefusal(w *ledger.World, bc *ledger.BlockCtx, o *le
 		for _, e := range vp.Dests {
 			if e.ID == t.ClientID {
 				if e.Vested < e.Amount {
-					violate(w, "C16", "expiry", "C16/amount-not-reachable-at-expiry/unlock-refused/"+cause, "unlock by destination at t=%d >= expiry %d refused with %d of %d vested: %s", now, vp.Expire, e.Vested, e.Amount, errStr(o))
+					violate(w, "C16", "expiry", "C16/amount-not-reachable-at-expiry/"+cause, "unlock by destination at t=%d >= expiry %d refused with %d of %d vested: %s", now, vp.Expire, e.Vested, e.Amount, errStr(o))
 				}
 				break
 			}
